@@ -164,6 +164,9 @@ def run(ctx):
     outs = run_world(binary, wd, cases)
     kf = {k["sig"]: k for k in known_findings() if k["property"] == ID and k["kind"] == "known"}
     violations, known = [], []
+    # glue probes (monitor only): the code around the modelled handlers - unreachable peers keep being contacted, a completed exchange reaches the failure detector
+    gv, gcov = glue_probes(ID, binary, wd, rng, quick, which=('round', 'heartbeat'))
+    violations += gv
     mon = [(c, f) for c, o in zip(cases, outs) for f in [monitor(c, o)] if f]
     okc = [(c, o) for c, o in zip(cases, outs) if not o.get("panic")]
     dis = correspondence(ID, wd, [c for c, _ in okc], [o for _, o in okc])
@@ -206,6 +209,7 @@ def run(ctx):
            "correspondence": {"harness": "gossip_h world mode", "histories": len(okc), "ops": sum(len(c["ops"]) for c in cases), "distribution": op_mix(cases),
                               "event_kinds": kinds, "disagreements": len(dis), "seed": ctx["seed"]},
            "monitor": {"histories": len(cases), "failures": len(mon), "failures_known": nknown}}
+    cov["glue_probes"] = gcov
     return {"coverage": cov, "violations": violations, "known": known}
 
 
@@ -213,6 +217,8 @@ def replay(path, wd):
     obj = json.load(open(path))
     case = obj["case"]
     binary = build_harness("pkg/gossip", dirs=["gossip"])
+    if replay_glue(obj, binary, wd):
+        return 0
     out = run_world(binary, wd, [case], tag="replay")[0]
     print(json.dumps({"monitor": monitor(case, out)}, indent=1))
     if not out.get("panic"):
